@@ -96,14 +96,14 @@ theorem sessionFree_own {L : List Nat} {s : RSess} {w : RW} (hI : RInv L s w) : 
 
 /-- a complete PDU, detached from the session (which has no partial PDU then): dispatched or not, session disconnected from
 inside coap_dispatch or not, it is released exactly once and the session still owns nothing -/
-theorem dispatchDelete_inv {L : List Nat} {parsed : Bool} {p : OPdu} {s : RSess} {w : RW} (hs : s.ppdu = none)
+theorem dispatchDelete_inv {L : List Nat} {parsed : Option Msg} {p : OPdu} {s : RSess} {w : RW} (hs : s.ppdu = none)
     (hO : Own [p.bufId, p.id] L w.h) :
     (dispatchDelete parsed p s w).1.ppdu = none ∧ Own [] L (dispatchDelete parsed p s w).2.h := by
   unfold dispatchDelete
   cases parsed with
-  | false => simp only [Bool.false_eq_true, if_false]; exact ⟨hs, pduDelete_own hO⟩
-  | true =>
-    simp only [if_true]
+  | none => simp only; exact ⟨hs, pduDelete_own hO⟩
+  | some m =>
+    simp only
     by_cases hd : dcHead w.dcs = true
     · simp only [hd, if_true]
       refine ⟨rfl, ?_⟩
@@ -112,7 +112,7 @@ theorem dispatchDelete_inv {L : List Nat} {parsed : Bool} {p : OPdu} {s : RSess}
     · simp only [hd, Bool.false_eq_true, if_false]
       exact ⟨hs, pduDelete_own hO⟩
 
-theorem dispatchDelete_rinv {L : List Nat} {parsed : Bool} {p : OPdu} {s : RSess} {w : RW} (hs : s.ppdu = none)
+theorem dispatchDelete_rinv {L : List Nat} {parsed : Option Msg} {p : OPdu} {s : RSess} {w : RW} (hs : s.ppdu = none)
     (hO : Own [p.bufId, p.id] L w.h) :
     RInv L (dispatchDelete parsed p s w).1 (dispatchDelete parsed p s w).2 := by
   have := dispatchDelete_inv (parsed := parsed) hs hO
